@@ -18,7 +18,7 @@ theorem inv_fold (rs : List Root) : ∀ st : St, Inv st →
     intro st h
     simp only [List.foldl_cons]
     apply ih
-    obtain ⟨ext, i, he, hI, _, _⟩ := ensure_spec fuel st (.root r) h (rank_lt_fuel _)
+    obtain ⟨ext, i, he, hI, _, _⟩ := ensure_spec fuel st (.root r) h (rank_lt_fuel _) rfl
     simp [he, hI]
 
 theorem inv_init : Inv initSt := inv_fold allRoots [] inv_nil
@@ -54,7 +54,7 @@ theorem evalReq_legal : ∀ (k : Key) (st : St), Inv st → (∀ r, (find st (.r
   | root r => intro st _ hr _; simpa [evalReq] using hr r
   | vec k o w =>
     intro st hI _ hl
-    obtain ⟨ext, i, h, _, _⟩ := ens_spec st (.vec k o w) hI
+    obtain ⟨ext, i, h, _, _⟩ := ens_spec st (.vec k o w) hI rfl
     simp [legal] at hl
     simp [evalReq, hl, h]
   | anon a b c d e => intro st _ _ hl; simp [legal] at hl
@@ -70,7 +70,7 @@ theorem evalReq_legal : ∀ (k : Key) (st : St), Inv st → (∀ r, (find st (.r
       cases r with
       | none => simp at h1
       | some j =>
-        obtain ⟨e2, i, h, _, _⟩ := ens_spec (st ++ e1) (.arr e n) hI1
+        obtain ⟨e2, i, h, _, _⟩ := ens_spec (st ++ e1) (.arr e n) hI1 rfl
         simp [hl.2, h]
   | q qk d t ih =>
     intro st hI hr hl
@@ -84,7 +84,7 @@ theorem evalReq_legal : ∀ (k : Key) (st : St), Inv st → (∀ r, (find st (.r
       cases r with
       | none => simp at h1
       | some j =>
-        obtain ⟨e2, i, h, _, _⟩ := ens_spec (st ++ e1) (.q qk d t) hI1
+        obtain ⟨e2, i, h, _, _⟩ := ens_spec (st ++ e1) (.q qk d t) hI1 rfl
         simp [hl.2, h]
 
 theorem runHist_legal : ∀ (h : List Key) (st : St), Inv st → (∀ r, (find st (.root r)).isSome = true) →
